@@ -18,13 +18,13 @@ META = {
     "chain/ring/star/grid/complete with 10, 20, 30 vertices. For init=generic the judged run is the SECOND run on the same Graph object (first run: one more vertex fixed, other initial guess; then released and re-seeded). Oracle: closed-form reduced WLS (Cholesky-whitened lstsq) for poses and chi2. "
     "non-trivial = at least one free vertex and the optimum differs from the initial guess by more than 1e-6",
     "assumptions": ["numpy cholesky/lstsq trusted on <= 90 unknowns", "exhaustive up to 4 (quick) / 5 (thorough) vertices; structured (not exhaustive) families above", "tolerance 1e-7 x (1 + scale)"],
-    "required_classes": ["information_scales_1e11_apart", "shared_guess_array", "fix_first_pose_true", "second_run_on_same_graph", "tree", "loop", "multi_edge", "landmark_offset", "reversed_orientation", "several_fixed", "far_init", "ill_conditioned", "noise_free", "noisy", "structured", "d2", "d3"],
+    "required_classes": ["single_iteration_run", "first_listed_vertex_has_largest_id", "information_scales_1e11_apart", "shared_guess_array", "fix_first_pose_true", "second_run_on_same_graph", "tree", "loop", "multi_edge", "landmark_offset", "reversed_orientation", "several_fixed", "far_init", "ill_conditioned", "noise_free", "noisy", "structured", "d2", "d3"],
     "bounds": {"quick": "n<=3 all; n=4 with <=4 edges; fixed subsets of size <=2; init {generic, far}; Omega {spd, ill}; noise {0 (n<=3), generic}", "thorough": "n<=4 all (<=5 edges); n=5 <=5 edges with single fixed vertex; all factors"},
 }
 
 FLAVOURS = ("odo_fwd", "odo_rev", "lm_fwd", "lm_rev", "alt_type", "alt_orient")
 INITS = ("truth", "generic", "far", "mixed")
-OMS = ("I", "spd", "ill", "tiny", "mixed")
+OMS = ("I", "spd", "ill", "tiny", "mixed", "aba")
 NOISES = ("zero", "generic")
 
 
@@ -82,6 +82,8 @@ def _omega(d, name, k, seed):
         return [[1.0 if i == j else 0.0 for j in range(d)] for i in range(d)]
     if name == "spd":
         return A.spd(d, seed, "c04-%d" % (k % 5))
+    if name == "aba":  # exactly diagonal, first and last entry equal, middle one different (not a multiple of the identity)
+        return [[(2.0 if i in (0, d - 1) else 5.0) + 0.5 * (k % 2) if i == j else 0.0 for j in range(d)] for i in range(d)] if d == 3 else [[2.0 + 0.5 * (k % 2), 0.0], [0.0, 5.0]]
     if name == "mixed":  # scales that differ by 1e11 between edges (a weakly attached vertex next to strongly tied ones)
         return [[(1e-5 if k == 0 else 1e6) * x for x in r] for r in A.spd(d, seed, "c04-%d" % (k % 5))]
     if name == "tiny":  # weak information: gradient entries far below any absolute threshold, same optimum
@@ -184,7 +186,7 @@ def run_chunk(chunk, tier, seed):
         tops = topologies(n, me)
         single = typ == "exh5"
         if tier == "quick":
-            inits, oms, noises = ("generic", "far"), ("spd", "ill", "tiny", "mixed"), (("zero", "generic") if n <= 3 else ("generic",))
+            inits, oms, noises = ("generic", "far"), ("spd", "ill", "tiny", "mixed", "aba"), (("zero", "generic") if n <= 3 else ("generic",))
         elif single:
             inits, oms, noises = ("far",), ("spd",), ("generic",)
         else:
@@ -197,7 +199,7 @@ def run_chunk(chunk, tier, seed):
                     for fixed in _fixed_subsets(n, tier, single):
                         for init in inits:
                             for om in oms:
-                                if tier == "quick" and om in ("tiny", "mixed") and init != "generic":
+                                if tier == "quick" and om in ("tiny", "mixed", "aba") and init != "generic":
                                     continue
                                 for nz in noises:
                                     _do(acc, {"n": n, "d": d, "es": [list(e) for e in es], "fl": fl, "fixed": list(fixed), "init": init, "om": om, "noise": nz, "seed": seed})
@@ -281,6 +283,14 @@ def _eval_inner(case):
     if ffp:
         eff[0] = True
         classes.append("fix_first_pose_true")
+    if ffp:
+        # the first LISTED vertex is not the one with the smallest id
+        n_ = len(spec["vertices"])
+        for v in spec["vertices"]:
+            v["id"] = n_ - 1 - v["id"]
+        for e in spec["edges"]:
+            e["ids"] = [n_ - 1 - i for i in e["ids"]]
+        classes.append("first_listed_vertex_has_largest_id")
     sol, chi2s, cond = wls.solve(spec, eff)
     g, verts, edges = GB.build(spec)
     if case["init"] == "generic":
@@ -307,7 +317,13 @@ def _eval_inner(case):
             if not eff[i]:
                 v.pose = type(v.pose)(guess)
     before = GB.snapshot(verts)
-    res = GB.optimize(g, fix_first_pose=ffp)
+    one = case["om"] == "aba" and case["init"] == "generic" and cond < 1e6
+    if one:
+        # a linear problem is solved by ONE iteration; the report of optimize(max_iter=1) is that of the returned poses
+        classes.append("single_iteration_run")
+        res = GB.optimize(g, max_iter=1, fix_first_pose=ffp)
+    else:
+        res = GB.optimize(g, fix_first_pose=ffp)
     after = GB.snapshot(verts)
     msgs = []
     ratio = 0.0
